@@ -145,6 +145,34 @@ class Part(HasTraits):
     w = VW(0)
 
 
+class CmpBad(object):
+    """A value whose comparison with the previous value raises while the change is being notified (handler plan 15)."""
+
+    def _cmp(self, other):
+        if PLAN["kind"] == "handler" and PLAN["k"] == 15:
+            PLAN["fired"] = True
+            raise PLAN["exc"]("cannot compare")
+        return self is other
+
+    def __eq__(self, other):
+        return self._cmp(other)
+
+    def __ne__(self, other):
+        return not self._cmp(other)
+
+    __hash__ = object.__hash__
+
+
+class EqHolder(HasTraits):      # plain trait with all three handler kinds, holding CmpBad values (opaque op SetEq)
+    e = Any()
+    n_static = Int()
+    n_dyn = Int()
+    n_obs = Int()
+
+    def _e_changed(self, new):
+        self.trait_setq(n_static=self.n_static + 1)
+
+
 class BadRepr(HasTraits):       # an object whose repr fails while one of its change handlers fails (opaque op SetBR)
     v = Int()
     calls = Int()
@@ -316,6 +344,10 @@ def make():
     br = BadRepr()
     br.on_trait_change(lambda: br.trait_setq(calls=br.calls + 1), "v")    # a later handler: must still run
     a.__dict__["_badrepr"] = br
+    eh = EqHolder(e=CmpBad())
+    eh.on_trait_change(lambda: eh.trait_setq(n_dyn=eh.n_dyn + 1), "e")
+    eh.observe(lambda ev: eh.trait_setq(n_obs=eh.n_obs + 1), "e")
+    a.__dict__["_eqholder"] = eh
     dp_ = DParent(child=DChild())
     dp_.child.inner                                    # created, so that the registration itself runs no failing code
     dp_.__dict__["_later"] = []
@@ -419,6 +451,8 @@ def aux(a):
     except Exception:                         # noqa
         vals.append(-78)
     vals += [a.__dict__["_badrepr"].v, a.__dict__["_badrepr"].calls]
+    eh = a.__dict__["_eqholder"]
+    vals += [eh.n_static, eh.n_dyn, eh.n_obs]             # every handler of the holder ran for every assignment
     dp_ = a.__dict__["_dparent"]
     vals += [dp_.static_calls, len(dp_.__dict__["_later"])]      # the other handlers of the auxiliary parent all ran
     h = 0
@@ -493,6 +527,8 @@ def execute(a, op, echo):
         a.x2 = op[1]
     elif k == "SetRG":
         a.rg = op[1]
+    elif k == "SetEq":
+        a.__dict__["_eqholder"].e = CmpBad()
     elif k == "SetBR":
         # default exception handling for this one operation: the library's own logging of a failing handler runs
         br = a.__dict__["_badrepr"]
